@@ -24,7 +24,8 @@ Definition sem (v : value) : jval :=
   end.
 
 (** members contributed by one attribute: an inline group (empty key) splices its members, a keyed
-    group is one member holding an object (possibly empty), a leaf is one member *)
+    group is one member holding an object — or nothing at all when the object would have no members
+    (recursively: a group whose members all vanish vanishes too) —, a leaf is one member *)
 Fixpoint exp_attr (k : list N) (v : value) {struct v} : list (list N * jval) :=
   match v with
   | VGroup l =>
@@ -33,7 +34,8 @@ Fixpoint exp_attr (k : list N) (v : value) {struct v} : list (list N * jval) :=
                  | [] => []
                  | (k', v') :: t => exp_attr k' v' ++ go t
                  end) l in
-    if is_empty k then ms else [(sanitize k, JObj ms)]
+    if is_empty k then ms
+    else match ms with [] => [] | _ => [(sanitize k, JObj ms)] end      (* a keyed group without members is omitted *)
   | _ => [(sanitize k, sem v)]
   end.
 
@@ -44,7 +46,7 @@ Fixpoint exp_attrs (l : list (list N * value)) : list (list N * jval) :=
   end.
 
 (** With-attributes come first at their nesting level; every WithGroup opens one object that holds
-    everything that follows (innermost last) *)
+    everything that follows (innermost last) and is rendered even when nothing follows *)
 Fixpoint nest (chain : list deriv) (inner : list (list N * value)) : list (list N * jval) :=
   match chain with
   | [] => exp_attrs inner
